@@ -2,6 +2,9 @@
 import vlib
 from props import clihist_common as C
 
+# Model/ClientMgr.v interprets the dispatch of handle_recv_message (order of the readers, what each arm does, close mode of the
+# array loop, rules after the loop) as read from the source by tools/translators/client_dispatch.py -> Gen/ClientDispatchGen.v
+TRANSLATORS = ["client_dispatch"]
 MODELS = ["clihist"]
 BINS = {"release": ["clihist"]}
 TRUSTED = [
